@@ -21,7 +21,10 @@ SRC = REPO / "src" / "halmos"
 COQ = VERIF / "coq"
 GEN = COQ / "Gen"
 BUILD = COQ / "_build"
-EVIDENCE = VERIF / "evidence"
+# runs against a scratch copy of the source (HALMOS_REPO=...: mutation / seeded-change experiments) must not
+# overwrite the evidence of the run against /repo itself
+_SCRATCH = os.environ.get("HALMOS_REPO") not in (None, "", "/repo")
+EVIDENCE = Path(os.environ.get("VERIF_EVIDENCE_DIR") or (VERIF / "_scratch_evidence" if _SCRATCH else VERIF / "evidence"))
 REPLAYS = VERIF / "replays"
 CORPUS = VERIF / "corpus"
 PY = "/venv/bin/python"
